@@ -124,7 +124,39 @@ pub fn run_case(id: &str, c: &Value) -> Value {
                 Ok(o) => json!({"k": "ok", "bytes": o.as_slice(), "len": o.len(), "doff": o.data_offset(), "n": -1}),
                 Err(TcpOptionWriteError::NotEnoughSpace(n)) => json!({"k": "err", "bytes": [], "len": -1, "doff": -1, "n": n}),
             };
-            json!({"ev": "opts_raw", "id": id, "bytes": bytes, "steps": steps, "hdr_same": hdr_same, "opts_same": opts_same, "from_slice": tfs})
+            // every other door to the same option area must give the same value (or the same refusal)
+            let base = TcpOptions::try_from_slice(&bytes);
+            #[allow(deprecated)]
+            let alt = {
+                let mut ok = TcpOptions::try_from(&bytes[..]) == base;
+                let mut h = TcpHeader::new(1, 2, 3, 4);
+                let before = h.clone();
+                match (h.set_options_raw(&bytes), &base) {
+                    (Ok(()), Ok(o)) => {
+                        ok &= h.options == *o && h.options_len() == o.len() && h.options() == o.as_slice() && o.is_empty() == (o.len() == 0)
+                            && AsRef::<[u8]>::as_ref(o) == o.as_slice() && &o[..] == o.as_slice() && AsRef::<TcpOptions>::as_ref(o) == o;
+                        let mut m = o.clone();
+                        ok &= m.as_mut_slice().to_vec() == o.as_slice().to_vec() && AsMut::<[u8]>::as_mut(&mut m).to_vec() == o.as_slice().to_vec();
+                    }
+                    (Err(e), Err(f)) => ok &= e == *f && h == before,
+                    _ => ok = false,
+                }
+                if bytes.is_empty() {
+                    ok &= TcpOptions::new() == *base.as_ref().unwrap() && TcpOptions::default() == TcpOptions::new();
+                }
+                macro_rules! arr {
+                    ($($n:expr),*) => { $( if bytes.len() == $n { let a: [u8; $n] = bytes[..].try_into().unwrap(); ok &= TcpOptions::from(a) == *base.as_ref().unwrap(); } )* };
+                }
+                arr!(4, 8, 12, 16, 20, 24, 28, 32, 36, 40);
+                if bytes.len() % 4 == 0 && bytes.len() <= 40 {
+                    macro_rules! arr4 {
+                        ($($n:expr),*) => { $( if bytes.len() == $n { let a: [u8; $n] = bytes[..].try_into().unwrap(); ok &= Ipv4Options::from(a).as_slice() == &bytes[..] && Ipv4Options::try_from(&bytes[..]).map(|o| o == Ipv4Options::from(a)).unwrap_or(false); } )* };
+                    }
+                    arr4!(0, 4, 8, 12, 16, 20, 24, 28, 32, 36, 40);
+                }
+                if ok { 1 } else { 0 }
+            };
+            json!({"ev": "opts_raw", "id": id, "bytes": bytes, "steps": steps, "hdr_same": hdr_same, "opts_same": opts_same, "from_slice": tfs, "alt": alt})
         } else {
             let elems: Vec<TcpOptionElement> = c["elems"].as_array().unwrap().iter().map(|e| {
                 let p: Vec<u8> = e[1].as_array().unwrap().iter().map(|x| x.as_u64().unwrap() as u8).collect();
@@ -142,7 +174,8 @@ pub fn run_case(id: &str, c: &Value) -> Value {
                 Ok(()) => json!({"k": "ok", "bytes": h.options.as_slice(), "doff": h.data_offset(), "hlen": h.header_len(), "unchanged": -1}),
                 Err(TcpOptionWriteError::NotEnoughSpace(n)) => json!({"k": "err", "bytes": [], "doff": n, "hlen": -1, "unchanged": if h == before { 1 } else { 0 }}),
             };
-            json!({"ev": "opts_elems", "id": id, "elems": c["elems"], "res": res, "set": set})
+            let alt = if TcpOptions::try_from(&elems[..]) == TcpOptions::try_from_elements(&elems) { 1 } else { 0 };
+            json!({"ev": "opts_elems", "id": id, "elems": c["elems"], "res": res, "set": set, "alt": alt})
         }
     }));
     r.unwrap_or_else(|_| json!({"ev": "panic", "id": id}))
